@@ -30,5 +30,20 @@ def stuck (mem : List (Rec α)) (r : Rec α) : Bool :=
 /-- `store_position` with copies (mine; fresh-array stubs): remember the current records -/
 def store (cur : List (Rec α)) : List (Rec α) := cur
 
+/-- what the handler keeps between updates: copies (`snapshot`: mine, fresh-array stubs) or a reference
+to the state's own arrays (`alias`: chemicals `self.x = self.state.X`) -/
+inductive MemKind where
+  | snapshot
+  | alias
+  deriving DecidableEq, Repr
+
+/-- the reposition decision for the current record `r`; `mem` are the records stored at the end of the
+previous update, `realloc` tells whether the state arrays were reallocated since then (LADiM's tracker
+writes positions in place; `append` / `remove` allocate new arrays) -/
+def decides (k : MemKind) (mem : List (Rec α)) (realloc : Bool) (r : Rec α) : Bool :=
+  match k with
+  | .snapshot => stuck mem r
+  | .alias => if realloc then stuck mem r else (mem.any (fun o => o.pid == r.pid))
+
 end
 end Ladim.Memory
